@@ -41,6 +41,16 @@ def known_b(c):
 def main(tier, seed, replay):
     ck = Check("C06", tier, seed)
     ck.coq_theorems()
+    if replay and '"family"' in open(replay).read():
+        import conccheck
+        conccheck.run(ck, "sesscache", tier, seed, replay, only="record names intermediate key")
+        ck.cov.update({"evaluations": 1, "distinct_nontrivial": 1, "rule": "replay"})
+        return ck.finish()
+    if replay and '"stress"' in open(replay).read():
+        import c08
+        c08.free_running(ck, tier, only="another partition's session")
+        ck.cov.update({"evaluations": 1, "distinct_nontrivial": 1, "rule": "replay (free-running rounds are not deterministic)"})
+        return ck.finish()
     n = 3000 if tier == "quick" else 40000
     binp, ok, blog = vlib.go_build("vrun")
     ck.oblige(ok, "harness-build", blog)
@@ -113,9 +123,18 @@ def main(tier, seed, replay):
     if known and listed:
         ck.known_finding("B: region-suffixed session accepts a foreign partition whose key id extends its unsuffixed id "
                          "(e.g. session 'a' decrypts partition 'a_svc_prod_x'); %d generated pairs hit it" % known)
+    if not replay and not viol:
+        # concurrent GetSession calls for different partitions on one factory (free-running goroutines, harness/cmd/vstress): the session handed
+        # out for partition p must be p's - judged by the key id its records carry
+        import c08, conccheck
+        c08.free_running(ck, tier, only="another partition's session")
+        # ... and the controlled schedules of the session-cache family (yield points before every lock acquisition of session_cache.go):
+        # overlapping GetSession calls for different partitions; a record produced through the session of partition p names p's key id
+        if not ck.violations:
+            conccheck.run(ck, "sesscache", tier, seed, None, n_quick=120, n_thorough=1200, only="record names intermediate key")
     if viol:
         ck.violation(ck.replay_file("impl", {"what": viol[0][0], "Case": viol[0][1]}))
-    elif mism:
+    elif mism and not ck.violations:
         # correspondence broke but the monitor saw no forbidden plaintext
         ck.violation(ck.replay_file("corr", {"obligation": "C06 correspondence (Cases/C06Run.c06_agree)", "what": mism[0][0], "Case": mism[0][1]}), False)
     elif ck.discharged != ck.obligations and not ck.violations:
